@@ -110,6 +110,66 @@ Theorem C06_pem_loop_fuel : forall dec describe,
 Proof. intros dec describe H. split; [exact (pem_loop_fuel dec describe H)|exact (pem_loop_no_fuel_error dec describe H)]. Qed.
 Print Assumptions C06_pem_loop_fuel.
 
+(* ---------------- PEM bundles, about the bytes of the file ---------------- *)
+
+(* No hypothesis about encoding/pem is left: dec is pem_dec, the Gallina model of pem.Decode
+   (Model/Pem.v, go1.23.5 encoding/pem/pem.go, compared with the real decoder at every "-----BEGIN " of
+   every generated case), and a block is written by [armor]: BEGIN line, header lines + empty line (if
+   any), the base64 of the body in lines of any width (0: one line), END line, LF or CRLF per block; the
+   END line of the last block may end the file.  bundle_text_ok (boolean): block_ok for every block
+   (label without LF; header lines with ':' and without LF; body octets < 256; an empty block without
+   headers has no ':' in its label), no piece of text between the blocks brings a "-----BEGIN " of its
+   own, only the last block may be unterminated.  For EVERY such file PEMFile lists exactly the non-PGP
+   blocks, in order. *)
+Theorem C06_pem_bundle_bytes : forall describe d items tail,
+  bundle_text_ok items tail = true ->
+  (forall b, In b (listed_blocks items) -> describe (ablock_block b) = Ok (d (ablock_block b))) ->
+  pem_file pem_dec describe (bundle_text items tail) =
+    match map (fun b => d (ablock_block b)) (listed_blocks items) with
+    | [] => Err "no valid PEM blocks"
+    | [i] => Ok i
+    | k => Ok (Info (bs "multiple PEM blocks") [] k)
+    end.
+Proof. exact pem_file_bytes. Qed.
+Print Assumptions C06_pem_bundle_bytes.
+
+(* dec_enc itself, proved of the model of pem.Decode for every armored block and every continuation *)
+Theorem C06_pem_decode_armor : forall b rest, block_ok b = true -> (ab_fin b = true \/ rest = []) ->
+  pem_dec (armor b ++ rest) = Some (ablock_block b, rest).
+Proof. exact pem_dec_armor. Qed.
+Print Assumptions C06_pem_decode_armor.
+
+(* with at least two listed blocks, child i is what PEMFile reports for block i alone - however that
+   block is written when it stands alone (line width, line endings, headers, final newline) *)
+Theorem C06_as_if_alone_pem_bytes : forall describe d items tail,
+  bundle_text_ok items tail = true ->
+  (forall b, In b (listed_blocks items) -> describe (ablock_block b) = Ok (d (ablock_block b))) ->
+  (2 <= length (listed_blocks items))%nat ->
+  exists children,
+    pem_file pem_dec describe (bundle_text items tail) = Ok (Info (bs "multiple PEM blocks") [] children) /\
+    length children = length (listed_blocks items) /\
+    Forall2 (fun b c => forall b', ablock_block b' = ablock_block b -> block_ok b' = true ->
+                          pem_file pem_dec describe (armor b') = Ok c) (listed_blocks items) children.
+Proof. exact pem_as_if_alone_bytes. Qed.
+Print Assumptions C06_as_if_alone_pem_bytes.
+
+(* pem.Decode (the model) always returns a strictly shorter rest, so PEMFile's loop terminates on every
+   input: the fuel of the model is never exhausted and the result does not depend on it *)
+Theorem C06_pem_terminates : forall describe,
+  (forall r b r', pem_dec r = Some (b, r') -> (length r' < length r)%nat) /\
+  (forall f1 f2 rest, (length rest < f1)%nat -> (length rest < f2)%nat ->
+     pem_loop pem_dec describe f1 rest = pem_loop pem_dec describe f2 rest) /\
+  ((forall b, describe b <> Err "fuel") ->
+   forall f rest, (length rest < f)%nat -> pem_loop pem_dec describe f rest <> Err "fuel").
+Proof. intros describe. split; [exact pem_dec_shorter|exact (pem_dec_loop_fuel describe)]. Qed.
+Print Assumptions C06_pem_terminates.
+
+(* the hypotheses are met by a bundle with leading text, a CRLF block, a block with headers in lines of 48,
+   PGP armor, an empty block and a last block in one line whose END line ends the file *)
+Theorem C06_pem_bytes_example : bundle_text_ok example_blocks [] = true /\ length (listed_blocks example_blocks) = 4%nat.
+Proof. exact example_blocks_ok. Qed.
+Print Assumptions C06_pem_bytes_example.
+
 (* ---------------- Java keystores ---------------- *)
 
 (* The stream codec round trip, for every list of entries the format can represent (jentry_ok: field
